@@ -23,6 +23,45 @@ end Acc
 namespace Rej
 /-- `INSERT_NAME in node.attrib` -/
 def isIns (t : Tree) : Bool := attrHas t.payload.attrs INSERT_NAME
+
+/-! ### decoding the `diff:*-attr` annotations (reject-all reading of the attributes) -/
+
+/-- `s.split(c)` -/
+def splitOnC (c : Char) : Str → List Str
+  | [] => [[]]
+  | x :: rest =>
+    if x = c then [] :: splitOnC c rest
+    else
+      match splitOnC c rest with
+      | [] => [[x]]
+      | h :: t => (x :: h) :: t
+
+/-- `s.partition(c)`: the part in front of the first `c` and the part after it -/
+def cutAt (c : Char) : Str → Str × Str
+  | [] => ([], [])
+  | x :: rest => if x = c then ([], rest) else ((x :: (cutAt c rest).1), (cutAt c rest).2)
+
+/-- the value shown for an attribute whose old value the markup does not record (`diff:delete-attr`) -/
+def UNKNOWN : Str := ['?']
+
+/-- the items of the annotation `diff:<action>-attr` (none when the attribute is absent or empty) -/
+def annot (as : List (Str × Str)) (action : String) : List Str :=
+  match attrGet as (dname (action ++ "-attr")) with
+  | some v => if v.isEmpty then [] else splitOnC ';' v
+  | none => []
+
+/-- The attributes of an element of the output with every marked attribute change rejected: added attributes go,
+updated ones get their old value, renamed ones their old name, deleted ones come back with an unknown value; the
+`diff:` attributes are dropped. -/
+def rejAttrs (as : List (Str × Str)) : List (Str × Str) :=
+  let a1 := (annot as "add").foldl (fun m name => attrDel m name) as
+  let a2 := (annot as "update").foldl (fun m item => attrSet m (cutAt ':' item).1 (cutAt ':' item).2) a1
+  let a3 := (annot as "rename").foldl (fun m item =>
+    match attrGet m (cutAt ':' item).2 with
+    | some v => attrSet (attrDel m (cutAt ':' item).2) (cutAt ':' item).1 v
+    | none => m) a2
+  let a4 := (annot as "delete").foldl (fun m name => attrSet m name UNKNOWN) a3
+  Acc.stripDiff a4
 end Rej
 
 namespace Fin
@@ -66,6 +105,23 @@ mutual
       else if isIns k then rejFK true sink rest
       else (sink, setTailT (nt (some (rejFK false (strOf k.payload.tail) rest).1)) (rejFT k) ::
         (rejFK false (strOf k.payload.tail) rest).2)
+end
+
+/-! the reject-all projection with the attributes: as `rejFT`, every element with `rejAttrs` of its attributes -/
+mutual
+  def rejFTA : Tree → Tree
+    | .node i p ks =>
+      .node i { kind := p.kind, tag := (attrGet p.attrs RENAME_NAME).getD p.tag, attrs := rejAttrs p.attrs,
+                text := nt (some (rejFKA false (strOf p.text) ks).1), tail := none }
+        (rejFKA false (strOf p.text) ks).2
+  def rejFKA : Bool → Str → List Tree → Str × List Tree
+    | _, sink, [] => (sink, [])
+    | drop, sink, k :: rest =>
+      if isWrapTag k then
+        (if drop then rejFKA true sink rest else rejFKA false (sink ++ rejOfW k) rest)
+      else if isIns k then rejFKA true sink rest
+      else (sink, setTailT (nt (some (rejFKA false (strOf k.payload.tail) rest).1)) (rejFTA k) ::
+        (rejFKA false (strOf k.payload.tail) rest).2)
 end
 
 end Fin
